@@ -502,7 +502,7 @@ def run_case(index, rng, tier):
         # close() within a few loop steps after channel.close(): the peer's reset response has not arrived yet
         ks = [n_steps + d for d in ((0, 1, 2, 3, 4, 6, 8, 12, 16, 24) if tier == "quick" else range(0, 60))]
     elif tier == "thorough" and index % 13 == 0:  # 13 is coprime to the 16 shards (index % 16 = shard): the long cases spread evenly
-        ks = list(range(1, n_steps + 1, 1 if n_steps < 400 else 2))
+        ks = list(range(1, n_steps + 1, max(1, n_steps // 300)))  # every step up to 300 steps, else an even stride: at most ~300-600 runs
     else:
         m = 10 if tier == "quick" else 16
         ks = sorted({max(1, int(n_steps * (i + rng.random()) / m)) for i in range(m)})
